@@ -379,7 +379,7 @@ def history_cases(jobs):
                     ov.unregister(ns[st["m"]])
                     live.remove(st["m"])
                 else:
-                    ns["BUDGET"][0] = job.get("budget", 3)
+                    ns["BUDGET"][0] = st.get("budget", job.get("budget", 3))
                     u0 = user_count()
                     counters["tm"] = counters["mtm"] = counters["plain"] = 0
                     _verif.install(point=point)
@@ -391,7 +391,7 @@ def history_cases(jobs):
                     fresh = Ovld()
                     for mid in live:
                         fresh.register(ns[mid], priority=byid[mid]["prio"])
-                    ns["BUDGET"][0] = job.get("budget", 3)
+                    ns["BUDGET"][0] = st.get("budget", job.get("budget", 3))
                     rec["fresh"] = ob.call(fresh.dispatch, st["call"], resolve=False) if live else None
                     if rec["fresh"] is None:
                         # a function without methods cannot be built; skip the step
